@@ -390,3 +390,20 @@ ITEMS = location_types() + budget_types() + error_types() + [
                                 else { value == v0 && !(tag is Degrees && saw_plain) });''')],
          ),
 ]
+
+# ---- bounded stand-in (vc/bounded.py): used only for a function of the evaluator that Verus can no longer take ----
+_RB = dict(harness='bounded/robotics_eval.rs', items=[('src/robotics.rs', '*')],
+           subs=[(r'use crate::tags::SfTag;', 'use super::shim::SfTag;'), (r'use crate::\{Error, Location\};', 'use super::shim::{Error, Location};')])
+_RB_LABELS = {
+    'Parser::expr': 'C19:expr_is_the_left_associative_fold_of_the_reference_grammar',
+    'Parser::term': 'C19:term_is_the_left_associative_fold_of_the_reference_grammar',
+    'Parser::unary': 'C19:unary_applies_every_sign_to_the_primary',
+    'Parser::primary': 'C19:primary_is_a_parenthesised_expression_a_number_or_a_name',
+    'Parser::parse_ident_or_special': 'C19:name_is_a_constant_or_a_unit_function_of_an_expression',
+    'parse_yaml12_float_angle_converting<f64>': 'C19:value_is_the_reference_evaluation_of_the_whole_text_with_the_tag_applied_once',
+}
+for _it in ITEMS:
+    if not _it: continue
+    _id = _it.get('id') or _it['path'].replace('impl ', '').replace('/fn ', '::').replace('fn ', '')
+    if _id in _RB_LABELS:
+        _it['bounded'] = dict(_RB, label=_RB_LABELS[_id])
